@@ -3,6 +3,7 @@
   requested mutations. Model: Kopf/Model/C18_Admission.lean; lemmas: Kopf/Lemmas/C18_*.lean.
 -/
 import Kopf.Lemmas.C18_Total
+import Kopf.Lemmas.C18_Spec
 import Kopf.Lemmas.C18_Misc
 namespace Kopf.C18
 open Kopf Kopf.J
@@ -116,65 +117,67 @@ theorem gate_ignores_operations_witness :
       gate h c true = true :=
   ⟨⟨"h", .validating, some ["CREATE"], none⟩, ⟨none, none, some "UPDATE", none⟩, rfl, rfl, by decide⟩
 
-/-! ## fidelity of the mutation
+/-! ## fidelity of the mutation (code after the repair 74dc18a)
 
-  Full statement (FALSE of the code, see the witnesses below):
-    `applyPatch b p = .ok b' → LeafEq b' (mergePatch b (.obj p))`  and  `applyPatch` total.
-  Proved: both under the guard `WellTyped b p` (patch mappings only descend into mappings or absent
-  keys; patch keys unique per level, as in any Python dict). `LeafEq` = same leaf at every path =
-  equality up to key order and the presence of empty mappings (`dropEmpty_leafEq`). -/
+  For EVERY reviewed object (a mapping) and EVERY merge-style patch content — no well-typedness
+  guard, not even uniqueness of patch keys — `_apply_patch` returns, and the mutated body has
+  exactly the leaves of the RFC 7386 merge at every path. `LeafEq` = same leaf at every path =
+  equality up to key order and the presence of empty mappings (`dropEmpty_leafEq`).
+  The only remaining hypothesis is that the body itself is a mapping (a non-mapping root makes
+  `dicts.ensure(body, (), {})` raise ValueError in the code and in the model; reviewed objects are
+  always mappings). -/
 
-/-- no exception when the patch is well-typed over the body -/
-theorem apply_total_on_welltyped (b : J) (p : List (String × J)) (h : WellTyped b p) :
+/-- no exception, whatever the patch: mappings over scalars / lists / nulls included -/
+theorem apply_total (b : J) (hb : b.isObj = true) (p : List (String × J)) :
     ∃ b', applyPatch b p = .ok b' := by
-  have hx := okx_of_wtAt (.obj p) (some b) h.1
-  exact applyInstr_total (.obj p) b [] (Or.inr rfl)
-    (fun q hq hne => by cases q <;> simp_all [pre]) hx h.2
+  obtain ⟨b', h, _⟩ := applyPatch_ok_sem b hb p
+  exact ⟨b', h⟩
 
-/-- on well-typed pairs the mutated body has exactly the leaves of the RFC 7386 merge -/
-theorem fidelity_partial (b b' : J) (p : List (String × J)) (h : WellTyped b p)
+/-- the mutated body has exactly the leaves of the RFC 7386 merge -/
+theorem fidelity (b b' : J) (hb : b.isObj = true) (p : List (String × J))
     (hr : applyPatch b p = .ok b') : LeafEq b' (mergePatch b (.obj p)) := by
   intro q
-  have h1 := applyKvs_sem p b b' [] hr
-  have h2 := mergePatch_sem (.obj p) (some b) rfl h.1 h.2
-  simp only [Option.getD, Lopt, absInstr] at h2
-  rw [h1, h2]
+  obtain ⟨b2, h2, hs⟩ := applyPatch_ok_sem b hb p
+  rw [h2] at hr
+  cases hr
+  obtain ⟨kvs, rfl⟩ : ∃ kvs, b = .obj kvs := by cases b <;> simp [isObj] at hb; exact ⟨_, rfl⟩
+  rw [hs, mergePatch, mergeKvs_sem]
 
 /-- `dropEmpty` (remove empty mappings, recursively) does not change the leaves: `LeafEq` is
     insensitive to exactly the presence of empty mappings (and to key order, by `lookup`). -/
 theorem dropEmpty_leafEq (j : J) (h : J.wf j = true) : LeafEq (dropEmpty j) j :=
   fun q => dropEmpty_leaf j h q
 
-/-- F4: a mapping patched over a scalar raises (model: `.error .typeError`) where RFC 7386 replaces it -/
-theorem apply_error_witness :
+/-- former F4 (raised TypeError before 74dc18a): a mapping over a scalar replaces it, as RFC 7386 -/
+theorem mapping_over_scalar_replaces :
     applyPatch (.obj [("spec", .obj [("a", .num 1)])]) [("spec", .obj [("a", .obj [("b", .num 2)])])]
-      = .error .typeError ∧
-    leafAt (mergePatch (.obj [("spec", .obj [("a", .num 1)])])
-      (.obj [("spec", .obj [("a", .obj [("b", .num 2)])])])) ["spec", "a", "b"] = some (.num 2) :=
-  ⟨rfl, rfl⟩
+      = .ok (.obj [("spec", .obj [("a", .obj [("b", .num 2)])])]) ∧
+    mergePatch (.obj [("spec", .obj [("a", .num 1)])]) (.obj [("spec", .obj [("a", .obj [("b", .num 2)])])])
+      = .obj [("spec", .obj [("a", .obj [("b", .num 2)])])] := ⟨rfl, rfl⟩
 
-/-- a leafless mapping over a scalar is silently ignored: the scalar survives where the merge has
-    an (empty) mapping — more than "the presence of empty mappings". -/
-theorem fidelity_unguarded_witness :
-    applyPatch (.obj [("a", .num 1)]) [("a", .obj [])] = .ok (.obj [("a", .num 1)]) ∧
-    ¬ LeafEq (.obj [("a", .num 1)]) (mergePatch (.obj [("a", .num 1)]) (.obj [("a", .obj [])])) := by
-  constructor
-  · rfl
-  · intro h
-    have h' := h ["a"]
-    have e1 : leafAt (.obj [("a", .num 1)]) ["a"] = some (.num 1) := rfl
-    have e2 : leafAt (mergePatch (.obj [("a", .num 1)]) (.obj [("a", .obj [])])) ["a"] = none := rfl
-    rw [e1, e2] at h'
-    cases h'
+/-- former C18-F2 (silently ignored before 74dc18a): an empty mapping over a scalar replaces it;
+    a deletion below a list removes the whole key (RFC 7386 leaves `{}`: equal up to an empty mapping) -/
+theorem empty_mapping_over_scalar_replaces :
+    applyPatch (.obj [("a", .num 1)]) [("a", .obj [])] = .ok (.obj [("a", .obj [])]) ∧
+    applyPatch (.obj [("a", .arr [.num 1]), ("z", .num 1)]) [("a", .obj [("b", .null)])]
+      = .ok (.obj [("z", .num 1)]) ∧
+    mergePatch (.obj [("a", .arr [.num 1]), ("z", .num 1)]) (.obj [("a", .obj [("b", .null)])])
+      = .obj [("a", .obj []), ("z", .num 1)] := ⟨rfl, rfl, rfl⟩
+
+/-- the remaining guard is needed: over a non-mapping root the root call raises (ValueError) -/
+theorem apply_nonmapping_root_raises :
+    applyPatch (.num 1) [("a", .num 2)] = .error .valueError := rfl
 
 /-! ## non-vacuity -/
 
--- a well-typed pair with nested merge, deletion (emptying a parent), type change mapping→scalar,
--- new nested keys and special characters in keys:
-example : WellTyped
-    (.obj [("spec", .obj [("a", .obj [("x", .num 1)]), ("m", .obj [("n", .num 1)])]), ("a/b", .num 1)])
-    [("spec", .obj [("a", .obj [("x", .null), ("y", .num 2)]), ("m", .str "s"), ("new", .obj [("~k", .bool true)])]),
-     ("a/b", .null)] := ⟨rfl, rfl⟩
+-- nested merge, deletion (emptying a parent), type changes both ways, new nested keys, special
+-- characters in keys, duplicate-free or not: the hypotheses of `fidelity` are met
+example : ∃ b', applyPatch
+    (.obj [("spec", .obj [("a", .obj [("x", .num 1)]), ("m", .obj [("n", .num 1)]), ("s", .str "v")]), ("a/b", .num 1)])
+    [("spec", .obj [("a", .obj [("x", .null), ("y", .num 2)]), ("m", .str "s"), ("s", .obj [("~k", .bool true)])]),
+     ("a/b", .null)] = .ok b' ∧
+    b' = .obj [("spec", .obj [("m", .str "s"), ("s", .obj [("~k", .bool true)]), ("a", .obj [("y", .num 2)])])] :=
+  ⟨_, rfl, rfl⟩
 
 example : ∃ b', applyPatch
     (.obj [("spec", .obj [("a", .obj [("x", .num 1)])]), ("k", .num 1)])
